@@ -1073,25 +1073,61 @@ def translate(repo, only=None):
     filters = sorted({r[1] for r in reg} | {"truncation_check"} | set(EXTRA_FILTERS))
     tmp = tempfile.mkdtemp(prefix="cxx2lean_")
     tu = os.path.join(tmp, "tu.cpp")
-    with open(tu, "w") as f:
-        f.write(PRELUDE_CPP)
-        for h in includes:
-            f.write(f"#include <{h}>\n")
-        f.write("void verif_force_instantiation() {\n")
-        for r in reg:
-            f.write(f"  (void){r[3]};\n")
-        f.write("}\n")
-    index = Index()
     errors = {}
+    excluded = set()
+
+    def write_tu():
+        """one forcing expression per line; returns line number -> registry name"""
+        lines = {}
+        with open(tu, "w") as f:
+            text = PRELUDE_CPP
+            for h in includes:
+                text += f"#include <{h}>\n"
+            text += "void verif_force_instantiation() {\n"
+            n = text.count("\n")
+            for r in reg:
+                if r[0] in excluded:
+                    continue
+                n += 1
+                lines[n] = r[0]
+                text += f"  (void){r[3]};\n"
+            text += "}\n"
+            f.write(text)
+        return lines
+
+    index = Index()
     try:
-        with ThreadPoolExecutor(max_workers=8) as ex:
-            for name, docs in zip(filters, ex.map(lambda nm: dump(repo, tu, nm), filters)):
-                index.add(docs)
-    except Unsupported as e:
-        return None, {"error": str(e)}
+        for attempt in range(6):
+            lines = write_tu()
+            index = Index()
+            try:
+                with ThreadPoolExecutor(max_workers=8) as ex:
+                    for name, docs in zip(filters, ex.map(lambda nm: dump(repo, tu, nm), filters)):
+                        index.add(docs)
+                break
+            except Unsupported as e:
+                # an instantiation that no longer compiles must not take the other functions down: the forcing lines clang
+                # blames are dropped (reported as errors of exactly these registry entries) and the dump is repeated
+                p = subprocess.run(["clang++-14", "-std=c++20", "-fsyntax-only", "-ferror-limit=0", "-DFCPPT_STATIC_LINK"] + include_flags(repo) + [tu],
+                                   capture_output=True, text=True)
+                blamed = {}
+                cur = None
+                for l in p.stderr.split("\n"):
+                    m = re.search(r"(?:error|fatal error): (.*)", l)
+                    if m and "tu.cpp" not in l.split(":")[0]:
+                        cur = m.group(1)
+                    m2 = re.match(r".*tu\.cpp:(\d+):\d+: (note: in instantiation|error|note: while substituting|note: requested here|note: in )", l)
+                    if m2 and int(m2.group(1)) in lines:
+                        blamed.setdefault(lines[int(m2.group(1))], cur or l.strip())
+                if not blamed or attempt == 5:
+                    return None, {"error": str(e)}
+                for nm, why in blamed.items():
+                    excluded.add(nm)
+                    errors[nm] = "the instantiation does not compile: " + str(why)[:300]
     finally:
         import shutil
         shutil.rmtree(tmp, ignore_errors=True)
+    reg = [r for r in reg if r[0] not in excluded]
     em = Emitter(index, {})
     done = []
     found = {}
